@@ -460,6 +460,7 @@ Proof.
   - free_rest.
   - free_rest.
   - free_rest.
+  - free_rest.
   - rewrite <- (step_cfg (s_cfg s) s e eq_refl).
     apply IH; [apply step_boundary | apply step_ri | apply step_lb | apply step_ci | ]; assumption.
 Qed.
@@ -635,6 +636,7 @@ Proof.
              | context [match ?x with _ => _ end] => destruct x
              end; cbn [In] in H; try contradiction; destruct H as [H|[]]; inversion H; reflexivity.
     - apply not_no_app_rr. intros Hq. revert H. apply Hno. apply (clause_402 i s e); assumption. }
+  apply in_app_or in H as [H|H]; [exfalso; revert H; apply Hno; free_rest|].
   apply in_app_or in H as [H|H]; [exfalso; revert H; apply Hno; free_rest|].
   apply in_app_or in H as [H|H]; [exfalso; revert H; apply Hno; free_rest|].
   apply in_app_or in H as [H|H]; [exfalso; revert H; apply Hno; free_rest|].
